@@ -4,7 +4,7 @@
    with arithmetic priors, whose attribute names are not stored. *)
 From Coq Require Import List String Bool Arith PeanoNat Lia Permutation Sorted.
 From PAFC01 Require Import ModelTree Sorting Proofs Proofs2 Proofs3.
-From PAFC08 Require Import Model Lib Proofs1 Proofs2 Proofs3.
+From PAFC08 Require Import Model Lib Proofs1 Proofs2 Proofs3 Proofs4.
 Import ListNotations.
 Local Open Scope string_scope.
 Local Open Scope list_scope.
@@ -162,8 +162,8 @@ Section P5.
             exists st2. cbn [tchildren]. rewrite E1. cbn [bind fst snd]. rewrite E2. cbn [bind fst snd].
             split; [reflexivity|exact R]. }
         intros st I. rewrite tnode_node. destruct (pre (SNode k ch asr)); [discriminate|].
-        cbv beta. unfold memo in Mch. cbv beta in Mch. setoid_rewrite pmap_node. rewrite vocc_node. destruct (skip (SNode k ch asr)) eqn:SK.
-        + destruct (Mch st I) as [st' [E [I' [X [C F]]]]]. exists st'. rewrite E. cbn [bind fst snd].
+        cbv beta. setoid_rewrite pmap_node. rewrite vocc_node. destruct (skip (SNode k ch asr)) eqn:SK.
+        + destruct (Mch st I) as [st' [E [I' [X [C F]]]]]. cbv beta in E. exists st'. rewrite E. cbn [bind fst snd].
           rewrite app_nil_r. repeat split; try apply I'; try apply X; assumption.
         + assert (Mas : memo V (tasserts V dstate (dict_prior V cf)) (fun f => map (amap V f)) (flat_map (assert_occs V)) asr).
           { apply memo_asserts. intros p sp Hin. apply HO. apply in_or_app. auto. }
@@ -242,6 +242,9 @@ Section P5.
         rewrite Forall_forall in IH. exact (IH _ Hin).
     Qed.
 
+    Lemma snd_prefix (k : string) (l : list (path * nat)) : map snd (prefix_paths k l) = map snd l.
+    Proof. unfold prefix_paths. rewrite map_map. reflexivity. Qed.
+
     (* the parameters (in walk order) of a well-formed model are unchanged *)
     Lemma ids_cn (n : node) : wf V n -> prior_ids V (cn n) = prior_ids V n.
     Proof.
@@ -252,20 +255,20 @@ Section P5.
       - cbn [cn walk]. rewrite cn_members_eq. destruct W as [_ W].
         induction ms as [|[k [i c]] ms IHms]; [reflexivity|].
         inversion IH as [|? ? Hc Hr]; subst. simpl in Hc. destruct W as [W1 W2].
-        cbn [cn_members map fst snd]. rewrite !map_app. unfold prefix_paths. rewrite !map_map. simpl.
+        cbn [cn_members map fst snd]. rewrite !map_app, !snd_prefix.
         rewrite (Hc W1). f_equal. apply IHms; assumption.
       - destruct W as [Hne [Wl Wr]]. cbn [cn walk]. simpl.
         destruct (String.eqb_spec ln rn) as [E|_]; [contradiction|].
-        rewrite !map_app. unfold prefix_paths. rewrite !map_map. simpl. rewrite (IHl Wl), (IHr Wr). reflexivity.
+        rewrite !map_app, !snd_prefix. rewrite (IHl Wl), (IHr Wr). reflexivity.
       - cbn [cn walk]. rewrite cn_attrs_eq. destruct W as [_ W].
         induction attrs as [|[k c] attrs IHa]; [reflexivity|].
         inversion IH as [|? ? Hc Hr]; subst. simpl in Hc. destruct W as [W1 W2].
-        cbn [cn_attrs map fst snd]. rewrite !map_app. unfold prefix_paths. rewrite !map_map. simpl.
+        cbn [cn_attrs map fst snd]. rewrite !map_app, !snd_prefix.
         rewrite (Hc W1). f_equal. apply IHa; assumption.
       - cbn [cn walk]. rewrite cn_attrs_eq. destruct W as [_ W].
         induction attrs as [|[k c] attrs IHa]; [reflexivity|].
         inversion IH as [|? ? Hc Hr]; subst. simpl in Hc. destruct W as [W1 W2].
-        cbn [cn_attrs map fst snd]. rewrite !map_app. unfold prefix_paths. rewrite !map_map. simpl.
+        cbn [cn_attrs map fst snd]. rewrite !map_app, !snd_prefix.
         rewrite (Hc W1). f_equal. apply IHa; assumption.
     Qed.
 
@@ -303,10 +306,7 @@ Section P5.
 
     Lemma vocc_noskip (n : snode) : vocc noskip n = occs V n.
     Proof.
-      induction n as [p sp|v|items|k ch asr IH] using (snode_ind' V); try reflexivity.
-      rewrite vocc_node, occs_node. f_equal. unfold ch_vocc, ch_occs.
-      induction ch as [|[nm c] ch IHc]; [reflexivity|]. inversion IH as [|? ? H1 H2]; subst. simpl in *.
-      rewrite H1, (IHc H2). reflexivity.
+      induction n as [p sp|v|items|k ch asr IH] using (snode_ind' V); reflexivity.
     Qed.
 
     Theorem db_image (n : snode) :
@@ -352,7 +352,7 @@ Section P5.
           * reflexivity.
           * cbn [erase]. inversion IH as [|? ? Hl H2]; subst. inversion H2 as [|? ? Hr _]; subst. simpl in Hl, Hr.
             rewrite (Hl false), (Hr false). reflexivity.
-          * cbn [erase]. reflexivity.
+          * destruct x as [xn xc]. reflexivity.
         + cbn [erase]. rewrite !erase_children, E. cbn [cn]. rewrite cn_attrs_eq. reflexivity.
     Qed.
 
